@@ -53,13 +53,19 @@ type Op struct {
 type Case struct {
 	NDags int  `json:"nDags"`
 	Ops   []Op `json:"ops"`
+	// Big: DAG d1 carries a 70 000-byte step description, so its status document
+	// (what the live agent answers on its socket) is larger than 64 KiB
+	Big bool `json:"big,omitempty"`
 }
+
+// curBig is Case.Big of the case being executed (one case at a time per process).
+var curBig bool
 
 var paramPool = []string{"", "p1", "p1 p2", `"a b"`, `"a b" "c d"`, `a "b c" X=1`, `NAME="two words" last`, `x=1 'single' "dq \"esc\""`, "tab\tsep", "$HOME `echo hi`", "ünï 日本"}
 var stepNames = []string{"s1", "s2", "nosuch", ""}
 
 func gen(t *rapid.T) Case {
-	c := Case{NDags: rapid.IntRange(2, 3).Draw(t, "nDags")}
+	c := Case{NDags: rapid.IntRange(2, 3).Draw(t, "nDags"), Big: rapid.IntRange(0, 2).Draw(t, "big") == 0}
 	n := rapid.IntRange(4, 18).Draw(t, "nOps")
 	if rep.Thorough() {
 		n = rapid.IntRange(3, 30).Draw(t, "nOps2")
@@ -108,7 +114,11 @@ func defText(work string, i int, running bool) string {
 	if running {
 		s1 = "sleep 30"
 	}
-	return fmt.Sprintf("params: d1\nsteps:\n  - name: s1\n    command: %s\n  - name: s2\n    command: \"true\"\n    depends: [s1]\n", s1)
+	desc := ""
+	if curBig && i == 1 {
+		desc = "    description: " + strings.Repeat("d", 70000) + "\n"
+	}
+	return fmt.Sprintf("params: d1\nsteps:\n  - name: s1\n    command: %s\n%s  - name: s2\n    command: \"true\"\n    depends: [s1]\n", s1, desc)
 }
 
 func newWorld(c *Case) (*world, error) {
@@ -116,7 +126,11 @@ func newWorld(c *Case) (*world, error) {
 	if err != nil {
 		return nil, err
 	}
+	curBig = c.Big
 	w := &world{h: h, bg: map[int]*bgRun{}, labels: map[string]bool{}, exeLog: filepath.Join(h.Dir, "fakeexe.log")}
+	if c.Big {
+		w.labels["status-document-beyond-64KiB"] = true
+	}
 	os.Setenv("VERIF_FAKEEXE_LOG", w.exeLog)
 	for i := 0; i < c.NDags; i++ {
 		n := fmt.Sprintf("d%d", i)
